@@ -19,3 +19,13 @@ def rec(*args, **kwargs):
 def rec2(*args, **kwargs):
     CALLS.append(("rec2", args, tuple(sorted(kwargs.items(), key=lambda kv: str(kv[0])))))
     return Obj(len(CALLS))
+
+
+def recnone(*args, **kwargs):
+    CALLS.append(("recnone", args, tuple(sorted(kwargs.items(), key=lambda kv: str(kv[0])))))
+    return None
+
+
+def reclist(*args, **kwargs):
+    CALLS.append(("reclist", args, tuple(sorted(kwargs.items(), key=lambda kv: str(kv[0])))))
+    return []
